@@ -27,14 +27,19 @@ Full statement / proved / missing
                        integers, strings of arbitrary content, representable regexps, floats (under the `FloatIO`
                        hypothesis carried by `Lit`), arrays and hashes of any size and nesting, parsing the
                        program-format text gives exactly that value back — through the real lexer model and the
-                       recursive descent parser model, with the fuel `parseFile` supplies.
+                       recursive descent parser model, with the fuel `parseFile` supplies.  The same theorem covers the
+                       WRITTEN form of object instances, `Name('attr' => v, …)` (`Val.obj`, `ObjectToString`: any
+                       type name `Seg::Seg…` other than `Deferred`, any literal values incl. nested object literals and
+                       type expressions as attribute values, `Name()` for an empty init hash): the text parses to exactly
+                       the constructor call `new Name {…}` (`Expr.call`) that `types.ResolveDeferred` hands to `px.New`.
 * values holding types — `C05_typed_value_roundtrip`: for every value built from the kinds above AND types of the fragment
                        (`TVal`: a type as an element, as a hash key, as a hash value, at any depth of nesting), the
                        program-format text parses and `types.ResolveDeferred` (`resolveV`: every DeferredType of the parse
                        result is resolved through the positional creators) gives exactly that value back.
-                       Missing from the value statement: object instances and the other constructor-call forms
-                       (`My::T('a' => 1)`, `Binary('AQ==')`, `SemVer('1.0.0')` need `px.New`, which is not modelled) —
-                       checked on the implementation only (direct predicate `rt-val` with objects, Binary, SemVer, URI).
+                       Missing from the value statement: what `px.New` makes of a parsed constructor call (attribute
+                       defaults, `makeValueHash`: the business of the Object model, C17) and the positional constructor-call forms
+                       (`Binary('AQ==')`, `SemVer('1.0.0')`) — object instances are checked end to end on the
+                       implementation (direct predicate `rt-val` with objects, Parameter, TypedName, Binary, SemVer, URI).
 * layers 2–4, types  — `C05_type_roundtrip_partial`: for every type `t` of the modelled fragment in the normal form the
                        creators produce (`WFTy`): parsing the text `t` prints and resolving it through the positional
                        creators yields exactly `t` (hence a type equal to `t` that prints the same text again).
@@ -148,6 +153,28 @@ example : Lit envEx sampleVal := by
   decide
 example : parse envEx (syms (printVal sampleVal)) = .value (exprOf sampleVal) :=
   C05_value_roundtrip envEx sampleVal (by simp only [sampleVal, Lit, LitE, LitL, envEx]; decide)
+
+/-- non-vacuity for object literals: `My::Lim('name' => 'it\'s', 'type' => Optional[String[1]], 'value' => [1, Pt()])`
+    (a qualified type name, a type expression and a nested object literal as attribute values) parses to the constructor
+    call `new My::Lim {…}` with a nested call `new Pt` -/
+def sampleObj : Val :=
+  .obj "My::Lim".toList [(.str "name".toList, .str ['i', 't', '\'', 's']),
+    (.str "type".toList, .tyx "Optional".toList (some [.tyx "String".toList (some [.int 1])])),
+    (.str "value".toList, .arr [.int 1, .obj "Pt".toList []])]
+theorem objName_MyLim : ObjName "My::Lim".toList :=
+  ⟨'M', ['y'], [('L', ['i', 'm'])], by decide, by decide, by decide, by
+    intro p hp; simp only [List.mem_singleton] at hp; subst hp; exact ⟨by decide, by decide⟩⟩
+theorem sampleObj_lit : Lit envEx sampleObj := by
+  simp only [sampleObj, Lit, LitE, LitL]
+  repeat' apply And.intro
+  all_goals first | exact objName_MyLim | exact objName_of_tyName (tyName_of_B (by decide)) | exact tyName_of_B (by decide) | decide | simp | trivial
+example : parse envEx (syms (printVal sampleObj)) =
+    .value (.call (some "new".toList) [.str "My::Lim".toList, .hash [(.str "name".toList, .str ['i', 't', '\'', 's']),
+      (.str "type".toList, .dtype "Optional".toList (some [.dtype "String".toList (some [.int 1])])),
+      (.str "value".toList, .arr [.int 1, .call (some "new".toList) [.str "Pt".toList]])]]) :=
+  C05_value_roundtrip envEx sampleObj sampleObj_lit
+example : printVal sampleObj =
+    "My::Lim('name' => 'it\\'s', 'type' => Optional[String[1]], 'value' => [1, Pt()])".toList := by decide +kernel
 
 /-- non-vacuity of the float parameter: for `D+.D+` texts the lexing half is a theorem; the conversion half is whatever
     `env.pf` is (the driver uses the exact reader `parseFloat`, e.g. `parseFloat "1.5" = 0x3FF8000000000000`) -/
